@@ -130,7 +130,7 @@ theorem bindOne_ok {st st' : BState τ} {name : Str} {t : τ} (hinv : BInv st)
 /-- a failed check means the new definition really conflicts with one accepted earlier -/
 theorem bindOne_error {st : BState τ} {name : Str} {t : τ} {k : ErrKind} (hinv : BInv st)
     (h : bindOne st name t = .error k) :
-    k ≠ .unknownArray ∧ ∃ n' t', dictGet st.info n' = some t' ∧ Conflicts n' t' name t := by
+    (k ≠ .unknownArray ∧ k ≠ .invalidIndex) ∧ ∃ n' t', dictGet st.info n' = some t' ∧ Conflicts n' t' name t := by
   unfold bindOne at h
   generalize hc1 : differs (dictGet st.ncm (upper name)) name = b1 at h
   generalize hc2 : differs (dictGet st.info name) t = b2 at h
@@ -238,7 +238,8 @@ theorem loopCls_error (cls : Sym → Cls τ) (syms : List Sym) {st : BState τ} 
     ∃ pre s post st1, syms = pre ++ s :: post ∧ loopCls cls st pre = .ok st1 ∧
       e.file = s.file ∧ e.line = s.line ∧ e.label = s.label ∧
       ((∃ a, cls s = .unknownArray a ∧ e.kind = .unknownArray ∧ e.extra = a) ∨
-       (∃ name t n' t', cls s = .defn name t ∧ e.kind ≠ .unknownArray ∧
+       (cls s = .tooLong ∧ e.kind = .invalidIndex) ∨
+       (∃ name t n' t', cls s = .defn name t ∧ e.kind ≠ .unknownArray ∧ e.kind ≠ .invalidIndex ∧
           dictGet st1.info n' = some t' ∧ Conflicts n' t' name t)) := by
   induction syms generalizing st with
   | nil => simp [loopCls] at h
@@ -275,7 +276,13 @@ theorem loopCls_error (cls : Sym → Cls τ) (syms : List Sym) {st : BState τ} 
       refine ⟨[], s, ss, st, by simp, by simp [loopCls], ?_⟩
       cases hc : cls s with
       | skip => rw [hc] at hstep; simp [stepCls] at hstep
-      | tooLong => rw [hc] at hstep; simp [stepCls] at hstep
+      | tooLong =>
+        rw [hc] at hstep
+        simp only [stepCls, mkErr] at hstep
+        injection hstep with hs
+        injection hs with hs
+        subst hs
+        exact ⟨rfl, rfl, rfl, Or.inr (Or.inl ⟨rfl, rfl⟩)⟩
       | unknownArray a =>
         rw [hc] at hstep
         simp only [stepCls, mkErr] at hstep
@@ -295,6 +302,6 @@ theorem loopCls_error (cls : Sym → Cls τ) (syms : List Sym) {st : BState τ} 
           injection hs with hs
           subst hs
           obtain ⟨hk, n', t', hg, hcf⟩ := bindOne_error hinv hb
-          exact ⟨rfl, rfl, rfl, Or.inr ⟨name, t, n', t', rfl, hk, hg, hcf⟩⟩
+          exact ⟨rfl, rfl, rfl, Or.inr (Or.inr ⟨name, t, n', t', rfl, hk.1, hk.2, hg, hcf⟩)⟩
 
 end QmiModel.Adbasic
